@@ -56,6 +56,19 @@ def frame_cases(tier: str, rng: random.Random) -> List[Dict[str, Any]]:
                                 if variant == "seq_ff" and by == 0:
                                     continue        # the feed-forward acts on another live qubit
                                 out.append(dict(kind="frame", variant=variant, nv=nv, role=role, expect=expect, n=n, bells=list(bells), by=by))
+    # a request with a fidelity constraint whose first attempt is rejected (its last pair took too long): the pairs of the
+    # rejected attempt are discarded, the pairs of the second attempt (pair numbers n..2n-1) are the ones that count
+    for variant in ("retry_post_h", "retry_keep"):
+        for nv in (False, True):
+            if nv and variant == "retry_post_h":
+                continue
+            for role in ("recv", "create"):
+                for n in (1, 2) if tier == "quick" else (1, 2, 3):
+                    if variant == "retry_keep" and n > 1:
+                        continue        # (several pairs without a post routine: the recorded finding about corrections aimed at qubit 0)
+                    tuples = list(itertools.product(range(4), repeat=2 * n))
+                    for bells in rng.sample(tuples, min(len(tuples), 16 if role == "recv" else 3)):
+                        out.append(dict(kind="frame", variant=variant, nv=nv, role=role, expect=True, n=2 * n, bells=list(bells), by=0, tries=2))
     return out
 
 
@@ -73,6 +86,11 @@ def _run_frame(item):
     ex = conn.ex
     ex.meas_script = [0, 1] * 20
     conn.link = rig.AutoLink(ex, conn.stack, bell=c["bells"], stepwise=True, mark=True)
+    if c.get("tries"):
+        ex.log_qfree = True
+        per = c["n"] // c["tries"]
+        # the duration of the LAST pair of the first attempt makes the attempt fail
+        conn.link.fields = lambda k_, kind_: {"goodness": 90000 if k_ == per - 1 else 100}
     row = dict(c, id=i, err="", fault=False, exc="", events=[], bystanders=[])
     try:
         bys = [Qubit(conn) for _ in range(c["by"])]
@@ -98,7 +116,14 @@ def _run_frame(item):
             with m.if_eq(1):
                 bys[0].H()
 
-        if variant == "seq_ff":
+        if c.get("tries"):
+            per = n // c["tries"]
+            if recv:
+                conn.link.remote[-1]["n"] = n
+            kwr = dict(min_fidelity_all_at_end=80, max_tries=c["tries"] + 1)
+            pr = {"retry_post_h": post_h, "retry_post_m": post_m}.get(variant)
+            (sock.recv_keep if recv else sock.create_keep)(per, **({"post_routine": pr} if pr else {}), **kwr, **ek)
+        elif variant == "seq_ff":
             ex.meas_script = [1, 0, 1, 1] * 10
             (sock.recv_keep if recv else sock.create_keep)(n, post_routine=post_ff, sequential=True, **ek)
         elif variant == "keep":
@@ -126,8 +151,19 @@ def _run_frame(item):
             # any other fault (qubit management, C09) is not judged here
             faulted_correction = isinstance(exc, rig.ControllerFault) and getattr(cur, "mnemonic", "") in ("rot_x", "rot_z") and imm == (16, 4)
         # the relocation of a bystander on single-communication-qubit hardware changes where it lives
+        holds = set()          # physical qubits that hold a pair right now (a qfree of one of THOSE discards the pair)
         for g in ex.gate_log[mark:]:
             mn, virt, imm, phys = g[0], g[1], g[2], g[3]
+            if mn == "deliver":
+                holds.add(phys[0])
+            elif mn == "mov":
+                holds.discard(phys[0]); holds.add(phys[1])
+            elif mn == "meas":
+                holds.discard(phys[0])
+            elif mn == "qfree":
+                if phys[0] not in holds:
+                    continue            # the free that belongs to a destructive measurement or to a move
+                holds.discard(phys[0])
             if mn == "deliver":
                 row["events"].append(dict(a="deliver", p=virt[0], b=imm[0], q=phys[0], q2=0, ax=""))
             elif mn in ("rot_x", "rot_z") and tuple(imm) == (16, 4):
@@ -138,6 +174,8 @@ def _run_frame(item):
                 row["events"].append(dict(a="mov", p=0, b=0, q=phys[0], q2=phys[1], ax=""))
             elif mn == "meas":
                 row["events"].append(dict(a="meas", p=0, b=0, q=phys[0], q2=0, ax=""))
+            elif mn == "qfree":
+                row["events"].append(dict(a="discard", p=0, b=0, q=phys[0], q2=0, ax=""))
             elif mn == "init":
                 continue
             else:
@@ -300,6 +338,15 @@ def _run_meas(item):
                     _ = (res[0].measurement_outcome, res[0].bell_state, res[0].raw_measurement_outcome)
                     conn.link = link2
                     conn.commit_subroutine(sub)
+                elif c["api"] == "read-after-a-later-request":
+                    # collect-then-evaluate: the results of this request are read only after another request, in a later
+                    # subroutine, delivered another Bell state and outcome
+                    conn.flush()
+                    conn.link = rig.AutoLink(conn.ex, conn.stack, bell=[(c["bell"] + 1 + rawc + 2 * rawr) % 4], outcomes=[1 - rawr])
+                    conn.link.remote.append(dict(remote=1, purpose=0, type="M", n=1))
+                    later = sock.recv_measure(1, expect_phi_plus=c["expect"])
+                    conn.flush()
+                    _ = later[0].measurement_outcome
                 else:
                     conn.flush()
                 r0 = res[0]
@@ -316,7 +363,7 @@ def _run_meas(item):
 
 def meas_cases() -> List[Dict[str, Any]]:
     out = []
-    for api in ("recv_measure", "result-object", "precompiled-rerun"):
+    for api in ("recv_measure", "result-object", "precompiled-rerun", "read-after-a-later-request"):
         for bell in range(4):
             for basis in BASES:
                 for expect in (True, False):
@@ -365,7 +412,7 @@ def run(prop: str, tier: str) -> int:
             r = rows[rid - 1]
             if r["kind"] == "meas":
                 api = r["api"]
-                if api == "precompiled-rerun" and any(rows[o - 1]["kind"] == "meas" and rows[o - 1]["api"] == "recv_measure" and v2[1] == v[1] and
+                if api in ("precompiled-rerun", "read-after-a-later-request") and any(rows[o - 1]["kind"] == "meas" and rows[o - 1]["api"] == "recv_measure" and v2[1] == v[1] and
                                                       all(rows[o - 1][f] == r[f] for f in ("bell", "basis", "expect")) for o, v2 in bad.items()):
                     # a single run of recv_measure fails in the same way for this Bell state and basis: the same failure
                     # (same witness), not one of running the compiled subroutine again
